@@ -42,7 +42,9 @@ def eval_const_expr(expr, what):
     e = expr.strip()
     e = re.sub(r"(?<=[0-9])_(?=[0-9])", "", e)
     e = re.sub(r"(?<=[0-9])(u8|u16|u32|u64|u128|usize|i8|i16|i32|i64|i128|isize|f32|f64)\b", "", e)
-    if not re.fullmatch(r"[0-9eE+\-*/(). ]+", e):
+    e = re.sub(r"0x([0-9a-fA-F_]+)", lambda m: str(int(m.group(1).replace("_", ""), 16)), e)
+    e = re.sub(r"0b([01_]+)", lambda m: str(int(m.group(1).replace("_", ""), 2)), e)
+    if not re.fullmatch(r"[0-9eE+\-*/(). <]+", e):
         raise TranslateError(f"{what}: not a literal constant expression: {expr!r}")
     try:
         tree = ast.parse(e, mode="eval")
@@ -70,6 +72,8 @@ def eval_const_expr(expr, what):
                         raise TranslateError(f"{what}: division by zero")
                     return a // b
                 return a / b
+            if isinstance(n.op, ast.LShift) and isinstance(a, int) and isinstance(b, int) and 0 <= b < 128:
+                return a << b
         raise TranslateError(f"{what}: unsupported constant expression {expr!r}")
 
     return ev(tree)
@@ -90,6 +94,13 @@ def one_match(src, pattern, what, flags=0):
 
 
 ERRORS = []
+PINNED_PATH = os.path.join(os.path.dirname(os.path.abspath(__file__)), "t1_pinned.json")
+try:
+    import json as _json
+    with open(PINNED_PATH) as _f:
+        PINNED = _json.load(_f)
+except (OSError, ValueError):
+    PINNED = {"consts": {}, "tables": {}}
 
 
 def soft(c, name, thunk):
@@ -104,7 +115,13 @@ def soft(c, name, thunk):
                 raise TranslateError(f"{name}: non-integer value {v!r}")
         c[name] = v
     except TranslateError as e:
-        ERRORS.append(f"{name}: {e}")
+        # the source no longer has the shape the translator reads (e.g. after a refactoring): fall back to the value of the last
+        # verified tree, so that nothing stops compiling; the behavioural correspondence (T2) remains the tie for this constant
+        if name in PINNED.get("consts", {}):
+            c[name] = int(PINNED["consts"][name])
+            ERRORS.append(f"fallback {name} = {c[name]} (value of the last verified tree; T2 is the only tie): {e}")
+        else:
+            ERRORS.append(f"omitted {name}: {e}")
 
 
 def soft_read(rel):
@@ -256,7 +273,11 @@ def gather_glue():
         try:
             g[name] = thunk()
         except TranslateError as e:
-            ERRORS.append(f"{name}: {e}")
+            if name in PINNED.get("tables", {}):
+                g[name] = [tuple(x) for x in PINNED["tables"][name]]
+                ERRORS.append(f"fallback table {name} (mapping of the last verified tree; T2 is the only tie): {e}")
+            else:
+                ERRORS.append(f"omitted table {name}: {e}")
 
     types = soft_read("throttlecrab-server/src/types.rs")
     serde_attr = bool(re.search(r"#\s*\[\s*serde\s*\(", types))
@@ -348,6 +369,14 @@ def main():
         f.write("\n".join(ERRORS) + ("\n" if ERRORS else ""))
     for e in ERRORS:
         print(f"extract_consts: NOT TRANSLATED (omitted from the generated files): {e}", file=sys.stderr)
+    if "--pin" in sys.argv:
+        if ERRORS:
+            print("extract_consts: refusing to pin while something is not translated", file=sys.stderr)
+            return 2
+        import json
+        with open(PINNED_PATH, "w") as f:
+            json.dump({"consts": c, "tables": {k: [list(x) for x in v] for k, v in g.items()}}, f, indent=1, sort_keys=True)
+            f.write("\n")
     if "--print" in sys.argv:
         import json
         print(json.dumps(c, indent=1, sort_keys=True))
